@@ -113,7 +113,7 @@ PROPS = {
                 assumptions=["storage kinds of data/axes are instantiated for f64 data Ix2/IxDyn (1-D) and Ix3/IxDyn (2-D)"]),
     "C14": dict(bin="c14", oracle=False,
                 legs={"quick": [N],
-                      "thorough": [N, ASAN(0.05), VALGRIND(0.01), MIRI(0.0015)]},
+                      "thorough": [N, ASAN(0.05), VALGRIND(0.01), MIRI(0.0008)]},
                 gates=[("counter_min", "ok_fully_written_checked", 1000), ("counter_min", "wrong_buffers_rejected", 5000),
                        ("counter_min", "wrong_buffers_rejected_same_count", 500),
                        ("counter_min", "windows_with_leading_and_trailing_slack", 500),
